@@ -26,9 +26,14 @@ A difference is `chk.disagree` (model ≠ implementation).  The agreement C ↔ 
 
 Independently of the model, the property's own oracle (`real_diff`) compares the REAL C descriptor (text and cffi)
 with the REAL numba descriptor of every object: a difference is a failing input -> `chk.violation`
-(`c18:descriptor:<kind>:<field>[:synthetic]`).  Where the theorems say level 2 (the compiled struct) must differ
-from the numba attribute (`form_descriptors_counterexample`: subdomain ids >= 2**31) the real pipeline is asked for
-a form that reaches it (`probe_int_range`, key `c18:descriptor:form_integral_ids:int32-overflow`).
+(`c18:descriptor:<kind>:<field>[:synthetic]`).  At level 2 (compiled struct) the oracle only judges IRs FFCx can
+produce: `_compute_form_ir` rejects subdomain ids outside [-1, 2**31-1] (fix 9a772cd of the finding
+`c18:descriptor:form_integral_ids:int32-overflow`, see FIXED); synthetic FormIRs with such ids remain correspondence
+inputs of `C.storeForm` only.  The key stays armed through the real pipeline (`probe_int_range`): boundary forms
+(ids 2**31-1, 0 accepted; 2**31, 2**31+5, (1, 2**31), 2**32+3, -1, -2 rejected) must be accepted by the real
+`_compute_form_ir` exactly when the model's guard (`formIRIntegrals`, lemma `formIR_idsFit`) accepts them, with the
+same message, and every accepted one is JIT-compiled and compared with the numba class.  The same loop model is
+compared with the three dictionaries of every corpus FormIR, and `idsFit` is evaluated on each of them.
 
 Synthetic inputs: hand-built `FormIR` tuples (many domains per integral, empty integral types, zero coefficients,
 duplicate/unsorted/huge ids, None hashes, inconsistent records on which both generators fail) through
@@ -59,6 +64,9 @@ DESCR_THEOREMS = [
     "Ffcx.C18Descr.form_descriptors_agree",
     "Ffcx.C18Descr.form_table_parallel",
     "Ffcx.C18Descr.form_decls_exact",
+    "Ffcx.C18Descr.formIR_idsFit",
+    "Ffcx.C18Descr.formIR_guard_examples",
+    "Ffcx.C18Descr.form_descriptors_agree_compiled",
     "Ffcx.C18Descr.form_descriptors_partial",
     "Ffcx.C18Descr.form_descriptors_counterexample",
     "Ffcx.C18Descr.seeded_m2_detected",
@@ -76,6 +84,9 @@ DESCR_THEOREMS = [
 TYPES = ("cell", "exterior_facet", "interior_facet", "vertex", "ridge")
 SCALARS = ("float32", "float64", "complex64", "complex128")
 KEY_INT32 = "c18:descriptor:form_integral_ids:int32-overflow"
+# findings of this cluster that were repaired in /repo (key -> fix commit); the keys stay armed
+FIXED = {KEY_INT32: "9a772cd"}  # fix: reject subdomain ids that do not fit ufcx_form.form_integral_ids
+ID_MIN, ID_MAX = -1, 2**31 - 1  # the ids `_compute_form_ir` lets through (model: `idFits`)
 Q = sexp.q
 
 
@@ -137,6 +148,33 @@ def export_form(fir, types=TYPES):
           [Q(str(n)) for n in fir.constant_names],
           [_hash(h, "finite_element_hashes") for h in fir.finite_element_hashes], tys]
     return sx(table), sx(ir)
+
+
+def export_itgs(fd, iirs, sort_domains=True):
+    """the input of the id/name/domain loop of `_compute_form_ir` for one form: UFL's integral data + the names and
+    domain sets of its IntegralIRs (`iirs` may be None when the IR could not be built: placeholders)"""
+    out = []
+    for k, itg in enumerate(fd.integral_data):
+        sids = ["otherwise" if sid == "otherwise" else _int(sid, "subdomain_id") for sid in itg.subdomain_id]
+        if iirs is not None:
+            nm = iirs[k].expression.name
+            doms = sorted({key[0] for key in iirs[k].expression.integrand.keys()}, key=int)
+        else:
+            nm, doms = f"itg{k}", []
+        out.append([TYPES.index(itg.integral_type), sids, Q(nm), [_dom(x) for x in doms]])
+    return sx(out)
+
+
+def groups_of(fir):
+    """the three dictionaries of a FormIR as the model prints them (domain sets sorted by tag)"""
+    return [[[int(i) for i in fir.subdomain_ids[t]], [str(n) for n in fir.integral_names[t]],
+             [[[x.name, int(x)] for x in sorted(ds, key=int)] for ds in fir.integral_domains[t]]] for t in TYPES]
+
+
+def parse_groups(r):
+    if r[0] != "ok":
+        return ("error", r[1] if len(r) > 1 else "")
+    return [[[int(i) for i in t[0]], list(t[1]), [[[x[0], int(x[1])] for x in ds] for ds in t[2]]] for t in r[1]]
 
 
 def export_integral(iir, domain):
@@ -569,6 +607,12 @@ class Session:
         agree = d.ask(f"(formagree {table} {irtext})")
         if agree[0] != "true":  # an instance of the theorem evaluated by the compiled model
             chk.disagree("driver evaluates form_descriptors_agree to false (compiled model ≠ proved model)", {"origin": origin, "form": name, "ir": irtext[:2000]})
+        fits = [x == "true" for x in d.ask(f"(fits {table} {irtext})")]  # idsFit, FieldsFit, table rows < 2^31
+        if all(fits) and agree[1] != "true":  # an instance of form_descriptors_agree_compiled
+            chk.disagree("driver evaluates form_descriptors_agree_compiled to false (compiled model ≠ proved model)", {"origin": origin, "form": name, "ir": irtext[:2000]})
+        if origin.startswith("corpus:") and not fits[0]:
+            chk.disagree("a FormIR built by the real _compute_form_ir violates idsFit (lemma formIR_idsFit)", {"origin": origin, "form": name, "ir": irtext[:2000]})
+        self._count("form:idsFit" if fits[0] else "form:ids-outside-guard")
         if agree[1] != "true":
             self.level2.append((origin, name, table, irtext))
         keyparts = [origin.split(":")[0]]
@@ -606,6 +650,14 @@ class Session:
         self.oracle("form", origin, name, c_text, nb, "text", replay)
         self.oracle("form", origin, name, c_cffi, nb, "cffi", replay)
         return mc, mn
+
+    def construction(self, origin, name, itgs, groups):
+        """the id/name/domain loop of `_compute_form_ir` (with its guards) vs `formIRIntegrals`"""
+        self._count("form:_compute_form_ir-loop")
+        m = parse_groups(self.d.ask(f"(formirints {len(TYPES)} {itgs})"))
+        if m != groups:
+            self.chk.disagree("formIRIntegrals vs the subdomain_ids / integral_names / integral_domains built by _compute_form_ir",
+                              {"origin": origin, "form": name, "input": itgs[:1500], "model": m, "impl": groups})
 
     def integral(self, origin, name, irtext, domtext, st, win32, c_text=None, c_cffi=None, nb=None):
         chk, d = self.chk, self.d
@@ -707,8 +759,8 @@ def _work_entry(e, use_cffi=True):
             else:
                 comp, mod, _ = pipeline.jit_forms(objs, cd, o)
             ns_name = mod.__name__  # the JIT's prefix: the IR below then carries the names of the compiled module
-        _, ir = pipeline.compute(objs, pipeline.default_options(**o), namespace=ns_name)
-        return comp, mod, ir
+        an, ir = pipeline.compute(objs, pipeline.default_options(**o), namespace=ns_name)
+        return comp, mod, (an, ir)
 
     o = _entry_options(e)
     loose = bool({"demo", "generated"} & set(e.tags or ()))  # inputs FFCx may not support in this mode
@@ -722,6 +774,7 @@ def _work_entry(e, use_cffi=True):
             comp, mod, ir = front(o)
         except Exception:
             return {"name": e.name, "skipped": f"{type(ex).__name__}: {str(ex)[:120]}"}
+    an, ir = ir
     st = str(o.get("scalar_type", "float64"))
     optC = pipeline.default_options(language="C", **o)
     optN = pipeline.default_options(language="numba", **o)
@@ -732,8 +785,13 @@ def _work_entry(e, use_cffi=True):
     out = {"name": e.name, "scalar": st, "forms": [], "integrals": [], "expressions": [], "bad": []}
     ffi = mod.ffi if mod is not None else None
     cffi_integrals = {}
+    nint = 0
     for i, fir in enumerate(ir.forms):
         table, irtext = export_form(fir)
+        fd = an.form_data[i]
+        iirs = ir.integrals[nint:nint + len(fd.integral_data)]
+        nint += len(fd.integral_data)
+        itgs, groups = export_itgs(fd, iirs), groups_of(fir)
         ctext = codeC.forms[i][1]
         cd_, decls = parse_c_form(ctext, fir.name)
         try:
@@ -749,7 +807,8 @@ def _work_entry(e, use_cffi=True):
             if rows is not None and not isinstance(cd_, tuple) and cd_["form_integrals"] is not None:
                 for nm, r in zip(cd_["form_integrals"], rows):
                     cffi_integrals[nm] = read_cffi_integral(ffi, r, len(fir.original_coefficient_positions))
-        out["forms"].append({"name": fir.name, "table": table, "ir": irtext, "c_text": cd_, "decls": decls, "c_cffi": cf, "numba": nb})
+        out["forms"].append({"name": fir.name, "table": table, "ir": irtext, "c_text": cd_, "decls": decls, "c_cffi": cf, "numba": nb,
+                             "itgs": itgs, "groups": groups})
     k = 0
     for iir in ir.integrals:
         for dom in set(key[0] for key in iir.expression.integrand.keys()):  # the loop of generate_code
@@ -798,6 +857,7 @@ def check_entries(chk, sess, entries, use_cffi=True):
         chk.programs += 1
         for f in r["forms"]:
             sess.form(f"corpus:{e.name}", f["name"], f["table"], f["ir"], f["c_text"], f["decls"], f["c_cffi"], f["numba"])
+            sess.construction(f"corpus:{e.name}", f["name"], f["itgs"], f["groups"])
         for g in r["integrals"]:
             sess.integral(f"corpus:{e.name}", g["name"], g["ir"], g["dom"], r["scalar"], False, g["c_text"], g["c_cffi"], g["numba"])
         for x in r["expressions"]:
@@ -941,7 +1001,12 @@ def check_synthetic_forms(chk, sess, seed, n):
                 chk.case("descr_form_stored", f"syn|{cf['form_integral_ids']}")
                 if df:
                     chk.disagree("C.storeForm ∘ C.form vs the compiled struct of a synthetic FormIR", {"form": ir.name, "fields": df, "ir": irtext[:1500]})
-                sess.oracle("form", f"synthetic:{seed}", ir.name, cf, nb, "cffi", f"FormIR {irtext}")
+                # level 2 is the property's business only for IRs FFCx can produce: `_compute_form_ir` rejects ids outside
+                # [-1, 2^31-1] (fix 9a772cd); the others stay correspondence inputs of `C.storeForm` (above)
+                if all(ID_MIN <= int(i) <= ID_MAX for t in TYPES for i in ir.subdomain_ids[t]):
+                    sess.oracle("form", f"synthetic:{seed}", ir.name, cf, nb, "cffi", f"FormIR {irtext}")
+                else:
+                    chk.hist["unproducible-ir:ids-outside-guard"] = chk.hist.get("unproducible-ir:ids-outside-guard", 0) + 1
         finally:
             shutil.rmtree(tmp, ignore_errors=True)
 
@@ -1052,34 +1117,69 @@ def check_prelude(chk, d):
         "cell types whose prelude constant differs from int(basix.CellType) (the `domain` attribute)": {k: {"basix": v, "numba prelude": pmap[k]} for k, v in impl_tags if k in pmap and pmap[k] != v}}
 
 
-# ============================================================================ probe: level 2 through the real pipeline
-def probe_int_range(chk, seen=None):
-    """Where `C.storeForm ∘ C.form` differs from `Numba.form` (theorem form_descriptors_counterexample): the same
-    input through the REAL pipeline — JIT-compiled C module read through cffi vs the attributes of the numba class."""
+# ============================================================================ probe: the id guard through the real pipeline
+def _boundary_forms():
     import ufl
-
-    import ffcx.compiler
 
     m, V = corpus.space("triangle")
     v = ufl.TestFunction(V)
-    for big in (2**31 + 5,):
-        form = v * ufl.dx(3) + v * ufl.dx(big)
+    B = 2**31
+    return [("v*dx(3) + v*dx(2**31-1)", v * ufl.dx(3) + v * ufl.dx(B - 1)),
+            ("v*dx(0)", v * ufl.dx(0)),
+            ("v*dx(3) + v*dx(2**31+5)", v * ufl.dx(3) + v * ufl.dx(B + 5)),  # the replay of the repaired finding
+            ("v*dx(2**31)", v * ufl.dx(B)),
+            ("v*dx((1, 2**31))", v * ufl.dx((1, B))),
+            ("v*dx + v*ds(2**32+3)", v * ufl.dx + v * ufl.ds(2**32 + 3)),
+            ("v*dx(-1)", v * ufl.dx(-1)),
+            ("v*dx(-2)", v * ufl.dx(-2)),
+            ("v*dx + v*ds((4, -2))", v * ufl.dx + v * ufl.ds((4, -2)))]
+
+
+def probe_int_range(chk, d, seen=None):
+    """Boundary forms through the REAL pipeline: (a) `_compute_form_ir` accepts exactly when the model's guard
+    (`formIRIntegrals`) does, with the same message; (b) for every ACCEPTED form the JIT-compiled C descriptor read
+    through cffi equals the numba class attribute (the armed search key of the repaired finding: it fires again if a
+    form with an id the `int` member cannot hold gets through)."""
+    import ffcx.compiler
+    from ffcx.analysis import analyze_ufl_objects
+
+    seen = seen if seen is not None else set()
+    for text, form in _boundary_forms():
+        with warnings.catch_warnings():
+            warnings.simplefilter("ignore")
+            try:
+                an = analyze_ufl_objects([form], "float64")
+            except Exception as ex:  # rejected by UFL itself: not an input of FFCx
+                chk.hist["probe:rejected-by-ufl"] = chk.hist.get("probe:rejected-by-ufl", 0) + 1
+                chk.notes.setdefault("descr_probe_ufl_rejects", []).append(f"{text}: {type(ex).__name__}")
+                continue
+            model = parse_groups(d.ask(f"(formirints {len(TYPES)} {export_itgs(an.form_data[0], None)})"))
+            try:
+                _, ir = pipeline.compute([form], pipeline.default_options())
+                real = "accepted"
+            except ValueError as ex:
+                real = str(ex)
+        mtxt = model[1] if isinstance(model, tuple) else "accepted"
+        chk.case("descr_probe_guard", f"{text}|{real}", sample={"form": text, "_compute_form_ir": real, "model": mtxt} if chk.hist.get("descr_probe_guard", 0) < 3 else None)
+        if mtxt != real:
+            chk.disagree("guards of _compute_form_ir vs formIRIntegrals on a boundary form", {"form": text, "model": mtxt, "impl": real})
+        if real != "accepted":
+            continue
         with pipeline.TmpCache() as tmp:
             (cf,), mod, _ = pipeline.jit_forms([form], tmp, options={}, cffi_extra_compile_args=["-O0"])
-            n = int(cf.form_integral_offsets[5])
+            n = int(cf.form_integral_offsets[len(TYPES)])
             cids = [int(cf.form_integral_ids[i]) for i in range(n)]
         src = ffcx.compiler.compile_ufl_objects([form], options=pipeline.default_options(language="numba"), namespace="vf")[0][0]
         ns = load_numba(src)
         cls = next(c for k, c in ns.items() if isinstance(c, type) and hasattr(c, "form_integral_ids"))
-        nids = list(cls.form_integral_ids)
-        chk.case("descr_probe_int_range", f"ids|{cids}|{nids}", sample={"form": f"v*dx(3) + v*dx({big})", "C (cffi)": cids, "numba": nids})
-        if cids != nids and KEY_INT32 not in (seen if seen is not None else set()):
-            if seen is not None:
-                seen.add(KEY_INT32)
-            chk.violation(KEY_INT32, "form_integral_ids of the compiled C form and of the numba form class differ for a subdomain id >= 2**31 "
-                          "(C `int` member holds the id modulo 2**32, numba holds the Python integer; the C ids are no longer ascending)",
-                          {"ufl": f"v*dx(3) + v*dx({big})  (P1 triangle, v = TestFunction)", "C form_integral_ids (cffi)": cids, "numba form_integral_ids": nids,
-                           "theorem": "Ffcx.C18Descr.form_descriptors_counterexample"})
+        nids = list(cls.form_integral_ids or [])
+        chk.case("descr_probe_int_range", f"ids|{cids}|{nids}", sample={"form": text, "C (cffi)": cids, "numba": nids})
+        if cids != nids and KEY_INT32 not in seen:
+            seen.add(KEY_INT32)
+            chk.violation(KEY_INT32, "form_integral_ids of the compiled C form and of the numba form class differ "
+                          "(a subdomain id the C `int` member cannot hold got through _compute_form_ir)",
+                          {"ufl": f"{text}  (P1 triangle, v = TestFunction)", "C form_integral_ids (cffi)": cids, "numba form_integral_ids": nids,
+                           "theorem": "Ffcx.C18Descr.form_descriptors_agree_compiled / form_descriptors_counterexample", "fixed_by": FIXED[KEY_INT32]})
 
 
 # ============================================================================ entry point
@@ -1090,7 +1190,7 @@ def check_descriptors(chk, d, entries, probes=True, use_cffi=True):
     sess = Session(chk, d)
     check_prelude(chk, d)
     if probes:
-        probe_int_range(chk, sess.seen)
+        probe_int_range(chk, d, sess.seen)
     check_entries(chk, sess, entries, use_cffi=use_cffi)
     quick = chk.tier == "quick"
     check_synthetic_forms(chk, sess, chk.seed, 200 if quick else 1500)
